@@ -525,6 +525,15 @@ def writeRTCP {W WC} (ci : Cipher W WC) (out : Option Ctx) (ssrc : Nat) (payload
     | none => none
     | some (c', w) => some (some c', .prot w)
 
+/-- `serverStreamMedia.writePacketRTCP` (sender reports of the stream): one encryption with the
+stream's context, then each reader gets `encr` iff ITS media has `srtpOutCtx != nil`, else `plain`. -/
+def streamWriteRTCP {W WC} (ci : Cipher W WC) (stream : Option Ctx) (readers : List SessMedia) (ssrc : Nat) (payload : Bytes) :
+    Option (Option Ctx × List (BodyC WC)) :=
+  match writeRTCP ci stream ssrc payload with
+  | none => none
+  | some (stream', encr) =>
+    some (stream', readers.map fun r => if r.srtpOut.isSome then encr else .plain payload)
+
 /-- `decodeRTCP` -/
 def readRTCP {W WC} (ci : Cipher W WC) (inCtx : Option Ctx) (b : BodyC WC) : ReadRes :=
   match inCtx, b with
